@@ -1,6 +1,7 @@
 import Ach.Driver.Hex
 import Ach.Model.Layout
 import Ach.Generated.Layouts
+import Ach.Model.Mask
 /-!
 `achmodel`: the executable model behind the correspondence check.  Reads one
 operation per line on stdin, writes one result line per operation.
@@ -52,6 +53,14 @@ def step (cx : Ctx) (line : String) : String :=
   | ["field", "settle", h] =>
     match hexToStr h with
     | some s => strToHex (validateSettlementDate s)
+    | none => "bad-op"
+  | ["mask", "number", h] =>
+    match hexToStr h with
+    | some s => bytesToHex (ByteArray.mk (maskNumber s).toArray)
+    | none => "bad-op"
+  | ["mask", "name", h] =>
+    match hexToStr h with
+    | some s => bytesToHex (ByteArray.mk (maskName s).toArray)
     | none => "bad-op"
   | ["rec", name, ps, h] =>
     match cx.layouts.lookup name, hexToStr h with
